@@ -117,17 +117,25 @@ def addsFor (fx : Fix) (cx : Ctx) (o u : Leaf) : List Nat :=
 def usersOf (all : List Leaf) (rt : Nat → Nat) (v : Nat) : List Leaf :=
   all.filter (fun u => u.vals.any (fun w => rt w == rt v))
 
-def adds (fx : Fix) (all : List Leaf) (rt : Nat → Nat) (cx : Ctx) (o : Leaf) : List Nat :=
-  o.vals.flatMap (fun v => (usersOf all rt v).flatMap (addsFor fx cx o))
+/-- repair FC13c (D30, shipped as an OPEN proposal, not applied): what a later single-core user `u` of a buffer that the
+all-cores operation `o` accesses appends -/
+def addsGlobal (fx : Fix) (cx : Ctx) (u : Leaf) : List Nat :=
+  if u.cls != Cls.all then u.id :: yieldOf fx cx u else []
+
+/-- `eff o.id`: the operand values through which the all-cores operation `o` accesses memory (FC13c: not
+side-effect free, no regions, not view-like); `eff = fun _ => []` is the code without FC13c. -/
+def adds (fx : Fix) (all : List Leaf) (rt : Nat → Nat) (eff : Nat → List Nat) (cx : Ctx) (o : Leaf) : List Nat :=
+  o.vals.flatMap (fun v => (usersOf all rt v).flatMap (addsFor fx cx o)) ++
+  (if o.cls == Cls.all then (eff o.id).flatMap (fun v => (usersOf all rt v).flatMap (addsGlobal fx cx)) else [])
 
 /-- the pending list after a barrier in a block with the given scope -/
 def discharge (fx : Fix) (scope : List Nat) (P : List Nat) : List Nat :=
   if fx = Fix.orig then [] else P.filter (fun u => !scope.contains u)
 
 /-- visit one operation: (a barrier is inserted in front of it, pending list afterwards) -/
-def visit (fx : Fix) (all : List Leaf) (rt : Nat → Nat) (cx : Ctx) (o : Leaf) (P : List Nat) : Bool × List Nat :=
+def visit (fx : Fix) (all : List Leaf) (rt : Nat → Nat) (eff : Nat → List Nat) (cx : Ctx) (o : Leaf) (P : List Nat) : Bool × List Nat :=
   ((P.contains o.id),
-   (if P.contains o.id then discharge fx cx.scope P else P) ++ adds fx all rt cx o)
+   (if P.contains o.id then discharge fx cx.scope P else P) ++ adds fx all rt eff cx o)
 
 def withSync (hit : Bool) (b : Blk) : Blk := if hit then .sync b else b
 
@@ -140,29 +148,38 @@ def plainCtx (cx : Ctx) (b : Blk) : Ctx := { scope := idsB b, forKids := none, l
 def topCtx (p : Blk) : Ctx := { scope := idsB p, forKids := none, loops := [] }
 
 /-- the walk: output block and pending list at the end -/
-def walkB (fx : Fix) (all : List Leaf) (rt : Nat → Nat) (cx : Ctx) : Blk → List Nat → Blk × List Nat
+def walkB (fx : Fix) (all : List Leaf) (rt : Nat → Nat) (eff : Nat → List Nat) (cx : Ctx) : Blk → List Nat → Blk × List Nat
   | .nil, P => (.nil, P)
   | .leaf l r, P =>
-    let w := walkB fx all rt cx r (visit fx all rt cx l P).2
-    (withSync (visit fx all rt cx l P).1 (.leaf l w.1), w.2)
+    let w := walkB fx all rt eff cx r (visit fx all rt eff cx l P).2
+    (withSync (visit fx all rt eff cx l P).1 (.leaf l w.1), w.2)
   | .sync r, P =>
-    let w := walkB fx all rt cx r (discharge fx cx.scope P)
+    let w := walkB fx all rt eff cx r (discharge fx cx.scope P)
     (.sync w.1, w.2)
   | .ifO l t e r, P =>
-    let wt := walkB fx all rt (plainCtx cx t) t (visit fx all rt cx l P).2
-    let we := walkB fx all rt (plainCtx cx e) e wt.2
-    let w := walkB fx all rt cx r we.2
-    (withSync (visit fx all rt cx l P).1 (.ifO l wt.1 we.1 w.1), w.2)
+    let wt := walkB fx all rt eff (plainCtx cx t) t (visit fx all rt eff cx l P).2
+    let we := walkB fx all rt eff (plainCtx cx e) e wt.2
+    let w := walkB fx all rt eff cx r we.2
+    (withSync (visit fx all rt eff cx l P).1 (.ifO l wt.1 we.1 w.1), w.2)
   | .forO l b ys y r, P =>
-    let wb := walkB fx all rt (bodyCtx cx b y) b (visit fx all rt cx l P).2
+    let wb := walkB fx all rt eff (bodyCtx cx b y) b (visit fx all rt eff cx l P).2
     let P2 := if ys then discharge fx (bodyCtx cx b y).scope wb.2 else wb.2
-    let vy := visit fx all rt (bodyCtx cx b y) y P2
-    let w := walkB fx all rt cx r vy.2
-    (withSync (visit fx all rt cx l P).1 (.forO l wb.1 (ys || vy.1) y w.1), w.2)
+    let vy := visit fx all rt eff (bodyCtx cx b y) y P2
+    let w := walkB fx all rt eff cx r vy.2
+    (withSync (visit fx all rt eff cx l P).1 (.forO l wb.1 (ys || vy.1) y w.1), w.2)
 
 /-- `insert-sync-barrier` on a function body; `rt` maps an SSA value to the value it is a view of (root) -/
-def insertBarriers (fx : Fix) (rt : Nat → Nat) (p : Blk) : Blk :=
-  (walkB fx (leavesB p) rt (topCtx p) p []).1
+def insertBarriers (fx : Fix) (rt : Nat → Nat) (eff : Nat → List Nat) (p : Blk) : Blk :=
+  (walkB fx (leavesB p) rt eff (topCtx p) p []).1
+
+/-- The pass on a MODULE: `InsertSyncBarrier.apply` is one walk over all functions, and the list `ops_to_sync`
+survives from one function to the next. The users of a value are operations of the same function (SSA values are
+function-local), hence the per-function table `leavesB f`. -/
+def walkModule (fx : Fix) (rt : Nat → Nat) (eff : Nat → List Nat) : List Blk → List Nat → List Blk
+  | [], _ => []
+  | f :: fs, P =>
+    (walkB fx (leavesB f) rt eff (topCtx f) f P).1 ::
+      walkModule fx rt eff fs (walkB fx (leavesB f) rt eff (topCtx f) f P).2
 
 /-- root of a value under a list of (view result, source) pairs -/
 def rootOf (views : List (Nat × Nat)) : Nat → Nat → Nat
